@@ -1,0 +1,33 @@
+//go:build verif
+
+// Package verifhook provides observation points for the external verification
+// harness.  It is compiled in only with the build tag "verif"; without the tag
+// At is an empty function (see off.go).
+package verifhook
+
+import "sync/atomic"
+
+// Func is the type of the installed hook: a point name followed by key/value
+// pairs.  The hook may block (scheduler gate / crash image).
+type Func func(point string, kv ...any)
+
+var hook atomic.Value // of Func
+
+// Set installs (or, with nil, removes) the hook.
+func Set(f Func) {
+	if f == nil {
+		hook.Store(Func(func(string, ...any) {}))
+		return
+	}
+	hook.Store(f)
+}
+
+// At reports that execution reached the named point.
+func At(point string, kv ...any) {
+	if f, ok := hook.Load().(Func); ok && f != nil {
+		f(point, kv...)
+	}
+}
+
+// Enabled tells whether hooks are compiled in.
+const Enabled = true
